@@ -163,6 +163,7 @@ type World struct {
 	PCMode       int
 	payloadSeq   int
 	emptyUsed    bool
+	sharedNode   *ipfslog.LogOptions
 	F            struct{ drop, dup, partition, crash, stall, clockjump, adderr bool }
 	Ptrs         []ptrRec
 	lastByz      *byzBatch
@@ -253,6 +254,23 @@ func (w *World) nodeOpts(n *Node) *ipfslog.LogOptions {
 	return o
 }
 
+// emptyLogOpts: the options value for creating a replica's (empty) log.
+func (w *World) emptyLogOpts(n *Node) *ipfslog.LogOptions {
+	if w.ShareOpts {
+		// one configuration value for all the (empty) logs the application creates, the access controller set
+		// per log before each NewLog: what a log is made of must not live in that value
+		if w.sharedNode == nil {
+			w.sharedNode = w.logOpts()
+		}
+		w.sharedNode.AccessController = n.Pol
+		w.R.Probe("options-value-reused-across-new-logs")
+		return w.sharedNode
+	}
+	o := w.logOpts()
+	o.AccessController = n.Pol
+	return o
+}
+
 func (w *World) newLog(wr *Writer, o *ipfslog.LogOptions) *ipfslog.IPFSLog {
 	l, err := ipfslog.NewLog(w.St, wr.ID, o)
 	if err != nil {
@@ -301,7 +319,7 @@ func NewWorld(r *Run, p *Profile) *World {
 	ws := Writers()
 	for i := 0; i < nrep; i++ {
 		n := &Node{Idx: i, W: ws[i%w.NW], Set: map[string]bool{}, Up: true, Pol: &policy{}}
-		n.Log = w.newLog(n.W, w.nodeOpts(n))
+		n.Log = w.newLog(n.W, w.emptyLogOpts(n))
 		w.resetMonitor(n)
 		w.Nodes = append(w.Nodes, n)
 	}
@@ -878,7 +896,7 @@ func (w *World) restart(n *Node) {
 	n.Up = true
 	n.ClockAhead = false
 	if n.Durable == nil {
-		n.Log = w.newLog(n.W, w.nodeOpts(n))
+		n.Log = w.newLog(n.W, w.emptyLogOpts(n))
 		n.Set = map[string]bool{}
 		w.R.Logf("restart n%d empty", n.Idx)
 		w.resetMonitor(n)
